@@ -286,7 +286,7 @@ def incl_case(rng, root):
                 dopts += rng.choice([['-D%s=%s' % (nm, v)], ['-D', '%s=%s' % (nm, v)]])
                 feats.add('-D value with =')
         else:
-            dopts.append('-U' + nm)
+            dopts += rng.choice([['-U' + nm], ['-U', nm]])
     if len(dopts) > 1:
         feats.add('-D/-U order')
     if rng.random() < 0.3 and content:
@@ -301,7 +301,7 @@ def incl_case(rng, root):
             feats.add('-include relative name')
     # keep "-D" "NAME=V" pairs together when the option list is split around the -I options
     h = len(dopts) // 2
-    if h and dopts[h - 1] == '-D':
+    if h and dopts[h - 1] in ('-D', '-U'):
         h += 1
     opts = dopts[:h] + opts + dopts[h:]
     return os.path.join(root, 'src', 'main.c'), opts, feats, cwd
